@@ -2,5 +2,6 @@ SPECIFICATION Spec
 CONSTANTS
   MaxLen = 10
 INVARIANT TypeInv TablesAreDefinitions RankSum RankOfSelect SelectOfRank RankMonotone CountsAddUp WordLaws
-INVARIANT ContractAcceptsDefined ContractRejectsCorrupted
+INVARIANT ContractAcceptsDefined ContractRejectsCorrupted HistoryContract
+PROPERTY HistorySteps
 CHECK_DEADLOCK FALSE
